@@ -140,7 +140,7 @@ func (fr *Frame) freshResult(sig *types.Signature, name string) *Val {
 }
 
 // call executes a call; returns (result, state). A nil state means the call does not return.
-func (fr *Frame) call(st *State, cc *ssa.CallCommon, pos token.Pos) (*Val, *State) {
+func (fr *Frame) call(st *State, cc *ssa.CallCommon, pos token.Pos) (rv *Val, rst *State) {
 	c := fr.C
 	sig := cc.Signature()
 	// builtins
@@ -172,7 +172,14 @@ func (fr *Frame) call(st *State, cc *ssa.CallCommon, pos token.Pos) (*Val, *Stat
 		if !ok {
 			cur = Num(0)
 		}
-		defer func(k string, c *Term) { st.Ghost[k] = Add(c, Num(1)) }(key, cur)
+		// the count is recorded in the state the call RETURNS (an inlined callee with several return points hands back a
+		// merged state, not the one it was entered with)
+		defer func(k string, c *Term) {
+			st.Ghost[k] = Add(c, Num(1))
+			if rst != nil && rst != st {
+				rst.Ghost[k] = Add(c, Num(1))
+			}
+		}(key, cur)
 	}
 	// caller-side assertions attached to this callee
 	if fr.Top && fr.Con != nil && c.noObligations == 0 {
